@@ -29,10 +29,10 @@ FLas   == <<65000, 1000100>>
 FPeer  == <<"match", "any", "mismatch">>
 FLMode == <<"off", "none", "recv", "send", "both">>
 FLHold == <<0, 3, 9, 30, 65535, -1>>
-FLKa   == <<0, 1, 2, 5>>
+FLKa   == <<0, 1, 2, 5, 20, 45>>     \* shorter and longer than a third of 9 / 30 / 90
 FLGr   == <<"off", "on", "onN", "llgr">>
 FRAs   == <<"e2", "e2nocap", "e4", "i", "inocap">>
-FRHold == <<0, 1, 2, 3, 10, 30, 65535>>
+FRHold == <<0, 1, 2, 3, 10, 30, 65535, 9, 90>>   \* 3, 9, 30, 90 also occur as LOCAL hold times
 FRShape == <<"off", "mp", "r", "s", "b", "dupconf", "dupsame", "aponly", "mpdup">>
 FROther == <<"none", "v4mc", "unk", "both">>
 FRExt  == <<"no", "yes", "dup">>
